@@ -248,6 +248,14 @@ class VOffsetProbe(_VFloatProbe):
         return data.data + offset
 
 
+class VNoneProbe(_VFloatProbe):
+    """Probe whose result is None (a context key that is present with the value None)."""
+
+    def _process_logic(self, data):
+        REC.add("VNoneProbe", data, {})
+        return None
+
+
 # --------------------------------------------------------------------------- context processors
 class VCtxScale(ContextProcessor):
     """Writes scaled = base * k."""
